@@ -6,7 +6,7 @@
 (* projection; each disagreement is printed as a VERDICT line carrying the *)
 (* owning property of every disagreeing field.                             *)
 (***************************************************************************)
-EXTENDS Frame, Json, IOUtils
+EXTENDS Frame, Velocity, Json, IOUtils
 
 Rec == ndJsonDeserialize(IOEnv.TRACE)
 
@@ -22,11 +22,15 @@ Totality(ev) ==
   \cup (IF ev.alloc <= AllocBound THEN {} ELSE {"alloc"})
   \cup (IF "ops" \in DOMAIN ev /\ ev.ops # "ok" THEN {"ops"} ELSE {})
 
-OwnerT(f) == IF f \in {"outcome", "alloc", "ops"} THEN "C01" ELSE Owner(f)
+\* C07: the library's velocity computation on a decoded type-19 report
+Derived(ev) == IF "calc" \in DOMAIN ev THEN CalcDiff(ev.calc, ev.bytes, 32) ELSE {}
+
+OwnerT(f) == IF f \in {"outcome", "alloc", "ops"} THEN "C01"
+             ELSE IF f \in {"csome", "chdg", "cgs", "cvrate"} THEN "C07" ELSE Owner(f)
 
 Judge(i) ==
   LET ev == Rec[i]
-      d  == Diff(ev.out, ev.bytes) \cup Totality(ev)
+      d  == Diff(ev.out, ev.bytes) \cup Totality(ev) \cup Derived(ev)
   IN IF d = {} THEN TRUE
      ELSE PrintT(<<"VERDICT", i, Class(ev.bytes), {<<OwnerT(f), f>> : f \in d}>>)
 
